@@ -316,7 +316,7 @@ def proto_data_received(u: U):
 
     class _Msg:
         should_close = msg_close
-        code = (200, 204, 100, 102)[u.choose(4, "message.code")] if has_parser and not parse_fails else 200
+        code = (200, 204, 100, 102, 101)[u.choose(5, "message.code")] if has_parser and not parse_fails else 200
 
     class _Pl:
         def on_eof(self, cb):
@@ -330,7 +330,7 @@ def proto_data_received(u: U):
             if parse_fails:
                 raise Boom("bad")
             # the parser hands EMPTY_PAYLOAD out for a message that cannot have a body (1xx, 204, 304)
-            return [(_Msg(), "EMPTY" if _Msg.code in (100, 102, 204) else _Pl())] * n_msgs, False, b""
+            return [(_Msg(), "EMPTY" if _Msg.code in (100, 101, 102, 204) else _Pl())] * n_msgs, False, b""
 
     if has_pp and has_parser and not upgraded:
         # state invariant of the protocol: a payload parser is installed by set_parser() only on a connection that was
@@ -409,6 +409,13 @@ def proto_data_received(u: U):
     if n_msgs:
         u.check("C06.data.close_announced_sticks", Implies(msg_close, fs["_should_close"] is True),
                 "Connection: close (or HTTP/1.0 without keep-alive) marks the protocol unusable")
+        if _Msg.code == 101:
+            # the parser did not report an upgrade (upgraded is False here): a 101 without 'Connection: upgrade', or with
+            # an Upgrade token the client does not support.  The peer has nevertheless left HTTP on this connection.
+            u.check("C06.data.switching_protocols_is_never_reused", Or(fs["_should_close"] is True, fs["_upgraded"] is True),
+                    "a connection on which the peer answered 101 Switching Protocols is not clean - whatever the response's "
+                    "other headers say - and so is never pooled for another HTTP request",
+                    known=[("F6d", True)], witness={"status": 101, "connection_close_announced": msg_close})
 
 
 @unit("C06", "const.bodiless_status_codes", kind="lemma", functions=["aiohttp.helpers:EMPTY_BODY_STATUS_CODES"], also=("C02",))
